@@ -775,6 +775,11 @@ def check_C19():
     rep["distinct_nontrivial"] += repr_["distinct_nontrivial"]
     rep["violations"] = (rep["violations"] or []) + (repr_["violations"] or [])
     rep["counters"]["filter_cases_with_released_library_cli"] = repr_["evaluations"]
+    rcb, repb = harness_run(vh, ["cli-replay", emf["out"], "@REPORT", car_rel, "only=big"], timeout=1200)
+    for v in (repb["violations"] or []):
+        v["class"] = v.get("class", "") + "/cli-linked-with-released-library"
+    rep["evaluations"] += repb["evaluations"]
+    rep["violations"] = (rep["violations"] or []) + (repb["violations"] or [])
     # car get-dag against Traversal.tla: DAGs x selectors x visit-once x incomplete stores x --strict
     gcfgs = [("Traversal_G3", 1000), ("Traversal_G", 100)] if tier() == "quick" else [("Traversal_G", 1000)]
     gd_cases = 0
